@@ -371,6 +371,7 @@ pub fn build_sprite(t: &mut Tape, c: &GenCfg) -> Sprite {
     // frames, canvases and cels of a hundred pixels, large tiles): most cases stay small and fast
     let scaled;
     let mut deep_nesting = false;
+    let mut dup_stack = false;
     let c = if c.scale && t.chance(1, 40) {
         let mut big = c.clone();
         match t.below(5) {
@@ -384,6 +385,8 @@ pub fn build_sprite(t: &mut Tape, c: &GenCfg) -> Sprite {
             2 => {
                 // many layers that all carry (tiny) cels
                 big.max_layers = if t.chance(1, 3) { 300 } else { 140 };
+                // half of these are stacks of one duplicated cel (what duplicating a layer many times produces)
+                dup_stack = t.chance(1, 2);
                 big.max_frames = 2;
                 big.max_cel = 2;
                 big.cel_density = 7;
@@ -696,6 +699,26 @@ pub fn build_sprite(t: &mut Tape, c: &GenCfg) -> Sprite {
         s.frames.push(Frame { duration, cels });
     }
 
+    if dup_stack {
+        // every image layer gets, in frame 0, an exact copy of the first image cel (same pixels, same offset),
+        // with opacities drawn from a small set so that equal (backdrop, source, opacity) situations recur
+        let proto = s.frames[0].cels.iter().find(|c| matches!(c.content, CelContent::Image { .. })).cloned();
+        if let Some(proto) = proto {
+            for l in 0..s.layers.len() {
+                if s.layers[l].kind != LayerKind::Image {
+                    continue;
+                }
+                let op = t.pick(&[255u8, 255, 0, 128, 255, 1]);
+                s.layers[l].opacity = t.pick(&[255u8, 255, 0, 128]);
+                s.frames[0].cels.retain(|c| c.layer as usize != l);
+                let mut c = proto.clone();
+                c.layer = l as u16;
+                c.opacity = op;
+                c.user_data = None;
+                s.frames[0].cels.push(c);
+            }
+        }
+    }
     // ---- tags ----
     if c.tags && t.chance(1, 2) {
         let n = t.below(6) as usize;
